@@ -6,10 +6,10 @@ props = [json.loads(l) for l in open(os.path.join(HERE, "properties.jsonl"))]
 
 CLAIMS = {
  "C01": ("codec layout extraction + guard formulas at boundary points + loop path pattern",
-         "writer layout term and reader binding table of SOMEIPHeader compared with the SOME/IP header table per wire position; accept/reject guards and payload/suffix split decided on the extracted path formulas at every guard boundary; datagram loop decided as a path pattern - universal over field values because nothing value-dependent remains except struct's own pack/unpack inverse law",
+         "writer layout term and reader binding table of SOMEIPHeader compared with the SOME/IP header table per wire position; accept/reject guards and payload/suffix split decided on the extracted path formulas at every guard boundary; datagram loop decided as a path pattern - universal over field values because nothing value-dependent remains except struct's own pack/unpack inverse law; every returning path of build() is the packed fields plus the payload (no remembered image)",
          "struct pack/unpack inverse on in-range values; bytes slicing; no monkey-patching", "4 C01"),
  "C02": ("codec layout tables, bit-field obligations, index assign/resolve duality, search-soundness certificate",
-         "per-codec writer/reader tables vs the SOME/IP-SD layout, registry agreement, framing formulas at boundary points, exhaustive flag bytes, structural duality of option index assignment and resolution, linear-index certificate that a reported search position is an occurrence; completeness of the sharing search is not decided",
+         "per-codec writer/reader tables vs the SOME/IP-SD layout, registry agreement, framing formulas at boundary points, exhaustive flag bytes, structural duality of option index assignment and resolution, linear-index certificate that a reported search position is an occurrence; completeness of the sharing search is not decided; entry typestate: runs are placed only for entries established as resolved",
          "struct range checks raise struct.error; list/tuple slicing; the search helper's completeness is outside the claim", "4 C02"),
  "C07": ("exhaustive decision table over an exact order/equality abstraction + path facts",
          "check_received's path formulas evaluated on every cell of (known, stored flag, flag, order of ids) with ids in 1..0xFFFF; state update on every path; key contains sender and channel; single evaluation and exactly-once fan-out in message_received/reboot_detected",
@@ -24,10 +24,10 @@ CLAIMS = {
          "after checking syntactically that ids/versions are only tested for (in)equality, all 3^4 x 3^4 abstract operand pairs of every matching predicate are compared with the oracle and the algebraic laws (any other operand field the decision consults is a free dimension the table must hold for); conversions are compared as field-mapping tables",
          "dataclass construction stores arguments unchanged", "4 C19"),
  "C20": ("reader->writer codec tables, range closure, exhaustive flag bytes",
-         "every wire position is bound invertibly or constant, decoded value ranges fit the writer positions, raw information (unknown option, flag bits, protocol numbers, raw indexes, unreferenced options) is re-emitted raw, SOME/IP positions all retained with recomputed length, configuration strings split/join inverse on representative bodies",
+         "every wire position is bound invertibly or constant, decoded value ranges fit the writer positions, raw information (unknown option, flag bits, protocol numbers, raw indexes, unreferenced options) is re-emitted raw, SOME/IP positions all retained with recomputed length, configuration strings split/join inverse on representative bodies; none of build()'s own refusals is reachable with decoded field values",
          "struct inverse law; ASCII codec preserves length", "4 C20"),
  "C05": ("ATOMIC(store, notification) typestate + who-may-notify + deferral-stamp ordering over the resolved call graph",
-         "every mutation of found_services.store invokes its notification in the same synchronous step and nothing else invokes it (so listener history = presence history for every interleaving); (un)watch catch-up is synchronous and reports stored (service, address) pairs; the notifier slots reach the listeners of every matching filter and the watch-all listeners with the reported pair; no cached view of store or filters survives a change of them; reboot handling precedes the offers of the same message by stamp order (call_soon depth, program order) - decided structurally, not by sampling schedules",
+         "every mutation of found_services.store invokes its notification in the same synchronous step and nothing else invokes it (so listener history = presence history for every interleaving); (un)watch catch-up is synchronous and reports stored (service, address) pairs; the notifier slots reach the listeners of every matching filter and the watch-all listeners with the reported pair; no cached view of store or filters survives a change of them; reboot handling precedes the offers of the same message by stamp order (call_soon depth, program order) - decided structurally, not by sampling schedules; a StopOffer reaches the store on every path (not gated by who is watching)",
          "asyncio ready queue is FIFO; listeners do not re-enter the discovery; one listener under two overlapping filters is not decided", "4 C05"),
  "C06": ("ATOMIC typestate for the subscription store + reject-before-record path facts + who-may-remove call graph + deferral-stamp ordering",
          "store mutation and client_(un)subscribed are one synchronous step, a rejected subscription is never recorded, removals are reachable only from TTL expiry / StopSubscribe / reboot / service stop, reboot handling precedes the Subscribe entries of the same message, identity excludes TTL and options",
@@ -36,22 +36,22 @@ CLAIMS = {
          "all paths of every store-mutating method: each removed/replaced value has its timer cancelled, call_later is armed with the unscaled TTL / expiry routine / same key and stored, never for 0xFFFFFF, expiry removes then reports once iff present, report is synchronous with the removal; elapsed time is not decided",
          "call_later fires once, not early, unless cancelled (asyncio contract)", "4 C09"),
  "C10": ("coroutine path enumeration with cancellation at every await + typestate + guarded-call rules",
-         "offer-task phase sequence and delays (evaluated with distinct primes per timing constant) on every path with CancelledError injected at each await, StopOffer count per path and configuration, running/may-answer typestate, deferred offers re-check the running state, every ServiceInstance.stop call is guarded, helper argument class agreement (one known finding, pinned by the test-suite)",
+         "offer-task phase sequence and delays (evaluated with distinct primes per timing constant) on every path with CancelledError injected at each await, StopOffer count per path and configuration, running/may-answer typestate, deferred offers re-check the running state, every ServiceInstance.stop call is guarded, helper argument class agreement (one known finding, pinned by the test-suite); generation state (_task, may-answer flag) is neither assigned nor consulted by the ending offer task beyond what start() and stop() leave",
          "Task.cancel raises CancelledError at the current await; sleep/uniform honour their arguments; real delays not decided", "4 C10"),
  "C11": ("path-effect summaries of both handle_subscribe functions + echo field-table composition",
          "per path: return value and multiset of queued answers (Ack after recording, Nack on listener rejection, none for StopSubscribe / no match), exactly one announcer Nack iff nobody took the entry, Ack/Nack echo ids/eventgroup/counter (evaluated on boundary values), multicast Subscribes never dispatched",
          "listeners reject only by NakSubscription; at most one instance matches an entry", "4 C11"),
  "C12": ("path enumeration of the find handler: matched instances vs scheduled answers, channel to delay mapping",
-         "gate on the may-answer flag then exactly Service.matches_find, one scheduling edge per matching instance to the requester's address, call_later(uniform(window)) for multicast and call_soon for unicast requests, the answer is the own offer with ANNOUNCE_TTL and re-checks the running state",
+         "gate on the may-answer flag then exactly Service.matches_find, one scheduling edge per matching instance to the requester's address, call_later(uniform(window)) for multicast and call_soon for unicast requests, the answer is the own offer with ANNOUNCE_TTL and re-checks the running state; the may-answer flag survives an offer task that ends on its own",
          "uniform() stays in its window and timers fire on time (not decided)", "4 C12"),
  "C13": ("coroutine freshness rule (list built after the last await) + round/delay sequence",
-         "every transmitted list is computed after the most recent await as the unfound watched services mapped through create_find_entry(FIND_TTL), initial delay window, 2**i*base repetition delays, rounds bounded by REPETITIONS_MAX, an empty round ends the task, multicast destination",
+         "every transmitted list is computed after the most recent await as the unfound watched services mapped through create_find_entry(FIND_TTL), initial delay window, 2**i*base repetition delays, rounds bounded by REPETITIONS_MAX, an empty round ends the task, multicast destination; the find task is begun by the owner's start() only (no self-restart), its handle is not touched by ending runs",
          "no other callback runs between two awaits; sleep honours its argument", "4 C13"),
  "C14": ("uniform deferral depth of transmissions + requested-set who-may-write + entry field tables",
-         "subscribe / stop-subscribe / stop defer their transmissions by the same number of loop iterations (so wire order = call order), StopSubscribe only after a successful removal, no Subscribe while not alive, refresh rounds use the current set without an await in between (no cached grouping survives a change of the requested set) and sleep the refresh interval, Subscribe entries carry ids/TTL/one endpoint option and go to the stored server",
+         "subscribe / stop-subscribe / stop defer their transmissions by the same number of loop iterations (so wire order = call order), StopSubscribe only after a successful removal, no Subscribe while not alive, refresh rounds use the current set without an await in between (no cached grouping survives a change of the requested set) and sleep the refresh interval, Subscribe entries carry ids/TTL/one endpoint option and go to the stored server; alive / task are owned by start()/stop() (no assignment from the cancelled refresh task or a done-callback)",
          "asyncio ready queue is FIFO; getnameinfo returns the numeric host/port", "4 C14"),
  "C15": ("SendCollector typestate (open/done) + key agreement + who-may-call",
-         "append only while open and only from queue_send, done set before the flush of the same list, one timer per collector armed at construction with the collection timeout, collector keyed and bound to the same remote, nobody cancels, zero timeout bypass sends one entry immediately, no announcer/instance transmission bypasses queue_send",
+         "append only while open and only from queue_send, done set before the flush of the same list, one timer per collector armed at construction with the collection timeout, collector keyed and bound to the same remote, nobody cancels, zero timeout bypass sends one entry immediately, no announcer/instance transmission bypasses queue_send; every method of the collector that hands the list over marks it done first, the timer handle is cancelled nowhere",
          "call_later fires once after the timeout; list.append keeps order", "4 C15"),
  "C16": ("exhaustive decision table over 384 input classes on the extracted path formulas + reply field tables",
          "each class of (service, interface version, method known, message type, return code, handler outcome, channel) selects one path; number, destination and fields of the reply (a field replacement over the request, so ids echo for all values) are compared with the specification table",
@@ -63,7 +63,7 @@ CLAIMS = {
          "escape sets of every decoder and of both receive paths (and their call_soon/call_later continuations), library raisers discharged only when the path's length facts exclude the failure; every while loop of a decoder strictly shortens its buffer; the SD filter decided on all 32x2 combinations of header fields / payload decodability; unicast-flag and multicast gates",
          "frozen table of library raisers; user listener/handler exceptions, format_address and the encoder side are outside (not byte-dependent)", "4 C03"),
  "C04": ("call-graph must-reach obligations through stored callbacks and scheduling edges + key agreement + deferral-stamp ordering (structural clauses only)",
-         "necessary conditions of convergence only: every link of the offer/subscribe/ack chain, of the periodic re-transmissions and of every withdrawal path exists; the auto-subscriber adds and removes under the same key; reboot handling precedes the entries of the same message; TTL/period constants are wired to the right places. The convergence-time bound itself is NOT decided (liveness over time and fault schedules)",
+         "necessary conditions of convergence only: every link of the offer/subscribe/ack chain, of the periodic re-transmissions and of every withdrawal path exists; the auto-subscriber adds and removes under the same key; reboot handling precedes the entries of the same message; TTL/period constants are wired to the right places. The convergence-time bound itself is NOT decided (liveness over time and fault schedules); generation state of the start/stop objects is not touched by code of an ending run",
          "asyncio FIFO ready queue; delivered datagrams reach datagram_received; timing and loss/duplication/reordering windows are outside", "4 C04"),
 }
 ENGINES = [{"name": "vstatic", "path": "vstatic/", "serves_properties": sorted(CLAIMS),
